@@ -11,7 +11,8 @@ MCPairQuick == {"all", "mockname", "exclude", "unroll-variadic"}
 MCLevelKeysQuick == {"all", "dir", "mockname", "exclude", "_anchors", "unroll-variadic", "boilerplate-file"}
 MCPairLevels == {"pkgA", "e2"}
 MCAliasKeysQuick == {"all", "mockname", "exclude", "boilerplate-file", "unroll-variadic"}
-MCFamQuick == {"single", "style", "alias", "null", "pair", "levels", "shape", "layout", "names", "bad"}
+MCFamQuick == {"single", "style", "alias", "null", "pair", "levels", "shape", "layout", "names", "bad", "docsyn", "doc", "doctree"}
+MCDocLevelsQuick == {"top", "pkgA", "ifaceI", "e1"}      \* one of each kind: top, package config, interface config, configs entry
 MCStyleLevels == {"top", "ifaceI", "e2"}
 MCFamSim == {"random"}
 =============================================================================
